@@ -1210,6 +1210,13 @@ class Engine:
         if isinstance(init_v, SSet):
             f = self.uf(name + '.has', *(sorts + [Z, z3.BoolSort()]))
             return SSet(lambda k, f=f, args=args: f(*(args + [k])), name)
+        if isinstance(init_v, NDArr):
+            cnt = [0]
+
+            def mk(x):
+                cnt[0] += 1
+                return self.prefix_value(x, '%s.e%d' % (name, cnt[0]), key, i)
+            return NDArr(mapnd(mk, init_v.data))
         if isinstance(init_v, FMap):
             return FMap(self, init_v.cls, init_v.field, init_v.ty,
                         '%s@%s' % (name, ','.join(str(z3.simplify(a)).replace('\n', '').replace(' ', '') for a in args)))
